@@ -145,4 +145,9 @@ REFACTORS = [
     # S43: address book reader with match instead of let-else
     ("s43", R + "node/address/store.rs", "            // Nb. See `addresses_of`: skip stored addresses that don't parse back.\n            let Ok(addr) = row.try_read::<Address, _>(\"value\") else {\n                continue;\n            };",
      "            let addr = match row.try_read::<Address, _>(\"value\") {\n                Ok(addr) => addr,\n                Err(_) => continue,\n            };", 1),
+    # S44: delegate membership in Repository::clean through iter().any()
+    ("s44", R + "storage/git.rs", "            if *local == id || delegates.contains(&id) {\n                continue;\n            }",
+     "            if *local == id || delegates.iter().any(|d| *d == id) {\n                continue;\n            }", 1),
+    # S45: quorum's selection loop over the entries instead of the keys
+    ("s45", R + "git/canonical.rs", "        for head in candidates.keys() {", "        for (head, _) in candidates.iter() {", 1),
 ]
